@@ -654,6 +654,20 @@ func upperTable(ds ...qframe.VerifFrame) string {
 			}
 		}
 	}
+	// closed under upper-casing: a chain of instructions may upper-case a value that an earlier instruction of the
+	// same call produced and that a later one overwrites, so that it shows in neither dump
+	for round := 0; round < 4; round++ {
+		added := false
+		for k := range set {
+			if u := strings.ToUpper(k); !set[u] {
+				set[u] = true
+				added = true
+			}
+		}
+		if !added {
+			break
+		}
+	}
 	keys := make([]string, 0, len(set))
 	for k := range set {
 		keys = append(keys, k)
